@@ -21,7 +21,7 @@ From Coq Require Import NArith ZArith List Bool.
 Import ListNotations.
 From Verif.lib Require Import Term.
 From Verif.model Require Import Overflow OnlineAccts OnlineAcctsSpec.
-From Verif.proofs Require Import OnlineEntries OnlineTables OnlineSpecLemmas OnlineInv OnlineCommit OnlineQueries OnlineWitness.
+From Verif.proofs Require Import OnlineEntries OnlineTables OnlineSpecLemmas OnlineInv OnlineCommit OnlineQueries OnlineTopSort OnlineTop OnlineWitness.
 Open Scope N_scope.
 
 (* trim_safe: OnlineAccountsDelete(forgetBefore) never changes what any round >= forgetBefore
@@ -115,7 +115,7 @@ Print Assumptions C13_oad_exact.
    weight TopOnlineAccounts reports depends on the flush schedule: stake of an account that is
    offline at rnd is subtracted when its (expired-by-voteRnd) row is still the DB state.
    Finding top_total_stale_invalid_legacy; for ExcludeExpiredCirculation = true the list and the
-   weight are checked against [spec_top] / [spec_top_total] on every run (C13_top_partial). *)
+   weight are proved (C13_top_n_correct, C13_top_total_correct). *)
 Theorem C13_top_total_legacy_refuted :
   oblocks_of w2_sched_a = oblocks_of w2_sched_b /\
   top_total_of wp_legacy w2_sched_a w2_genesis w2_supply0 2 22 2 1526 = Some 123521400000000 /\
@@ -134,12 +134,69 @@ Theorem C13_genesis_incentive_refuted :
 Proof. exact genesis_incentive_refuted. Qed.
 Print Assumptions C13_genesis_incentive_refuted.
 
-(* C13_top_partial: for TopOnlineAccounts only the expired-stake part of the reported weight is
-   covered by a theorem (it is [expired_circulation], the subject of C13_circulation_correct);
-   that the returned list is the n largest valid voters by (normalized balance, address) is
-   checked on every run against [spec_top] but not proved: missing is the permutation argument
-   between the candidate map (DB rows overridden by deltas) and the history's voter set, and
-   the uniqueness of the sorted list. *)
+(* top_n_correct: for EVERY schedule and EVERY batch size >= 1 of the candidate loop (the Go code
+   uses 1024), the list TopOnlineAccounts returns for a retained round is the n first — by
+   normalized balance descending, ties by address descending — of the accounts the block history
+   says are online at rnd with keys valid in voteRnd.  The loop stops fetching DB rows as soon as
+   it holds n + |accounts modified in memory| valid candidates: at most |modified| of them can be
+   removed by the deltas, the n that remain precede every row not fetched yet ([prefix_enough]).
+   The list does not depend on ExcludeExpiredCirculation; the legacy exception concerns only the
+   WEIGHT (C13_top_total_legacy_refuted = finding top_total_stale_invalid_legacy).
+   [hist_norm]: balances are uint64 and RewardsBase + RewardUnit < 2^64 (NormalizedOnlineBalance
+   does not overflow); [online_pos]: online accounts have a non-zero normalized balance (the SQL
+   query filters normalizedonlinebalance > 0; the minimum balance guarantees it). *)
+Theorem C13_top_n_correct : forall p G supply0 batch ops s rnd vr n level top tot,
+  genesis_ok G -> op_unit p <> 0 -> 1 <= op_maxbal p -> (1 <= batch)%nat ->
+  blocks_ok (oblocks_of ops) -> hist_norm p G (oblocks_of ops) -> online_pos p G (oblocks_of ops) ->
+  orun p (ostate_init p G supply0) ops = Some s ->
+  params_at s rnd <> None ->
+  top_online_b batch p s rnd vr n level = ROk (top, tot) ->
+  spec_top p G (oblocks_of ops) (N.to_nat rnd) vr n = Some top.
+Proof. exact top_n_any_schedule. Qed.
+Print Assumptions C13_top_n_correct.
+
+Theorem C13_top_n_schedule_independent :
+  forall p G supply0 b1 b2 ops1 ops2 s1 s2 rnd vr n l1 l2 top1 tot1 top2 tot2,
+  genesis_ok G -> op_unit p <> 0 -> 1 <= op_maxbal p -> (1 <= b1)%nat -> (1 <= b2)%nat ->
+  oblocks_of ops1 = oblocks_of ops2 ->
+  blocks_ok (oblocks_of ops1) -> hist_norm p G (oblocks_of ops1) -> online_pos p G (oblocks_of ops1) ->
+  orun p (ostate_init p G supply0) ops1 = Some s1 -> orun p (ostate_init p G supply0) ops2 = Some s2 ->
+  params_at s1 rnd <> None -> params_at s2 rnd <> None ->
+  top_online_b b1 p s1 rnd vr n l1 = ROk (top1, tot1) -> top_online_b b2 p s2 rnd vr n l2 = ROk (top2, tot2) ->
+  top1 = top2.
+Proof. exact top_n_schedule_independent. Qed.
+Print Assumptions C13_top_n_schedule_independent.
+
+(* the crux lemma on its own: a fetched prefix of the DB order holding n + |modified| valid
+   candidates (or the whole table) gives the same n first as the whole table *)
+Theorem C13_fetched_prefix_enough : forall D md n m vr,
+  sortedT D -> NoDup (addrs D) -> NoDup (keys md) -> md_ok md ->
+  ((length D <= m)%nat \/ (n + length md <= length (filter (validb vr) (firstn m D)))%nat) ->
+  firstn n (top_sort (vals (apply_md md (mk (filter (validb vr) (firstn m D)))))) =
+  firstn n (top_sort (vals (apply_md md (mk (filter (validb vr) D))))).
+Proof. exact prefix_enough. Qed.
+Print Assumptions C13_fetched_prefix_enough.
+
+(* the weight next to the list, ExcludeExpiredCirculation = true, after ANY schedule *)
+Theorem C13_top_total_correct : forall p G supply0 batch ops s rnd vr n level top tot ex,
+  genesis_ok G -> op_unit p <> 0 -> 1 <= op_maxbal p ->
+  blocks_ok (oblocks_of ops) -> hist_u64 G (oblocks_of ops) -> supply0 < W ->
+  orun p (ostate_init p G supply0) ops = Some s ->
+  op_exclude p = true -> params_at s rnd <> None ->
+  spec_expired p G supply0 (oblocks_of ops) (N.to_nat rnd) vr = Some ex ->
+  top_online_b batch p s rnd vr n level = ROk (top, tot) ->
+  spec_top_total p G supply0 (oblocks_of ops) (N.to_nat rnd) vr level = Some (Some tot).
+Proof. exact top_total_any_schedule. Qed.
+Print Assumptions C13_top_total_correct.
+
+(* anti-vacuity for the top-N theorems: the example history meets [hist_norm] / [online_pos], and
+   with batch size 1 (several loop iterations) the answers are those of batch size 1024 *)
+Example C13_top_nonvacuous :
+  (hist_norm wp4 ex_genesis ex_blocks /\ online_pos wp4 ex_genesis ex_blocks) /\
+  (ex_top 1 = ex_top 1024 /\
+   ex_top 1 = Some (ROk ([mkOAcc 2 8000048000 6 8000000000 6 900 10], 10000120000),
+                    ROk ([mkOAcc 3 2000004000 2 2000000000 1 50 9], 2000004000))).
+Proof. exact (conj ex_top_hyps ex_top_values). Qed.
 
 (* anti-vacuity: a concrete schedule meets every hypothesis: accounts go online / offline, keys
    expire, rewards accrue, commits trim the history (MaxBalLookback 4), a reload, cache fills *)
